@@ -16,6 +16,10 @@ Gen/FmtRules.v (fmt/src/lib.rs, fmt/src/processor/mod.rs)
     the meaning of `actions::{drop,copy,space,newline,emptyline,insert,swap}`
     is itself read from processor/mod.rs;
   * for every `Bubble::new(input, |token| AIR, |token| WATER)`: both classes;
+  * `pipeline`: the order in which `format_impl` chains all its stages
+    (Processor chains, Bubbles, CommentProcessor, FormatHexPatterns, Align,
+    AddIndentation, RemoveTrailingSpaces; helper functions `Self::x(tokens)`
+    are expanded), with the boolean option that selects a stage;
   * self-checks: MAX_PREV_TOKENS = MAX_NEXT_TOKENS = 3, the default
     pass-through category, every `token(n)` literal within range, every
     pipeline stage type of lib.rs is one this framework knows about.
@@ -367,7 +371,9 @@ def parse_lib(lib_src, actions, cx, default_pt):
         if t in KNOWN_STAGE_TYPES or t in NOT_STAGES: continue
         raise TranslateError(f"unknown pipeline stage type `{t}::new(` in fmt/src/lib.rs")
     stages, bubbles, kinds = [], [], set()
+    proc_offsets, bubble_offsets = [], []
     for m in re.finditer(r"(?<![A-Za-z_0-9])(?:processor::)?Processor::new\(", text):
+        proc_offsets.append(m.start())
         i = m.end() - 1
         _, i = call_args(text, i)
         pt = default_pt
@@ -394,13 +400,157 @@ def parse_lib(lib_src, actions, cx, default_pt):
             raise TranslateError(f"Processor::new at offset {m.start()} has no rules")
         stages.append((enclosing_fn(text, m.start()), pt, rules))
     for m in re.finditer(r"(?<![A-Za-z_0-9])(?:bubble::)?Bubble::new\(", text):
+        bubble_offsets.append(m.start())
         args, _ = call_args(text, m.end() - 1)
         parts = [p for p in split_top(args, ",") if p != ""]
         if len(parts) != 3: raise TranslateError("Bubble::new: expected 3 arguments")
         bubbles.append((class_of(parts[1], cx), class_of(parts[2], cx), enclosing_fn(text, m.start())))
     if len(stages) < 5: raise TranslateError("fewer Processor stages than expected")
     if not bubbles: raise TranslateError("no Bubble stage found")
-    return stages, bubbles
+    pipeline, opts = parse_pipeline(text, proc_offsets, bubble_offsets)
+    return stages, bubbles, pipeline, opts
+
+
+# ----------------------------------------------------------------- pipeline order
+def fn_body_at(text, name):
+    body = fn_body(text, name, "fmt/src/lib.rs")
+    base = text.find(body)
+    if base < 0 or text.find(body, base + 1) >= 0:
+        raise TranslateError(f"fn {name}: cannot locate its body")
+    return body, base
+
+
+def statements(body, base):
+    """[(stmt, absolute offset)] of the top-level `;`-separated statements."""
+    out, cursor = [], 0
+    for st in split_top(body, ";"):
+        if not st: continue
+        pos = body.find(st, cursor)
+        if pos < 0: raise TranslateError("statement splitting lost track of offsets")
+        out.append((st, base + pos)); cursor = pos + len(st)
+    return out
+
+
+def parse_pipeline(text, proc_offsets, bubble_offsets):
+    # boolean options of the Formatter, numbered in declaration order
+    sm = re.search(r"pub\s+struct\s+Formatter\s*\{", text)
+    if not sm: raise TranslateError("struct Formatter not found")
+    sbody = text[sm.end():match_brace(text, sm.end() - 1)]
+    opts = re.findall(r"(\w+)\s*:\s*bool\s*,", sbody)
+    if len(opts) < 3: raise TranslateError("struct Formatter: boolean options not found")
+
+    def first_arg_is(args, var, what):
+        a = split_top(args, ",")[0].strip()
+        if a != var: raise TranslateError(f"pipeline: {what} is applied to `{a}`, expected `{var}`")
+
+    def expr_stages(e, off, var, depth=0):
+        """list of bstage terms for an expression consuming `var`."""
+        lead = len(e) - len(e.lstrip()); e = e.strip(); off += lead
+        if e == var: return []
+        m = re.match(r"Box::new\(", e)
+        if m and match_brace(e, m.end() - 1, "(", ")") == len(e) - 1:
+            return expr_stages(e[m.end():-1], off + m.end(), var, depth)
+        m = re.match(r"(?:processor::)?Processor::new\(", e)
+        if m:
+            args, _ = call_args(e, m.end() - 1); first_arg_is(args, var, "Processor::new")
+            if off not in proc_offsets: raise TranslateError("pipeline: Processor::new at an unexpected offset")
+            return [f"BProc {proc_offsets.index(off)}"]
+        m = re.match(r"(?:bubble::)?Bubble::new\(", e)
+        if m:
+            args, _ = call_args(e, m.end() - 1); first_arg_is(args, var, "Bubble::new")
+            if off not in bubble_offsets: raise TranslateError("pipeline: Bubble::new at an unexpected offset")
+            return [f"BBubble {bubble_offsets.index(off)}"]
+        flat = re.sub(r"\s+", "", e)
+        simple = {f"comments::CommentProcessor::new({var}).tab_size(self.tab_size)": "BComments",
+                  f"FormatHexPatterns::new({var})": "BHex", f"Align::new({var})": "BAlign",
+                  f"AddIndentation::new({var},self.indentation)": "BIndent",
+                  f"RemoveTrailingSpaces::new({var})": "BTrailing"}
+        if flat in simple: return [simple[flat]]
+        m = re.match(r"Self::(\w+)\(", e)
+        if m and match_brace(e, m.end() - 1, "(", ")") == len(e) - 1:
+            if depth > 3: raise TranslateError("pipeline: helper functions nested too deeply")
+            args, _ = call_args(e, m.end() - 1); first_arg_is(args, var, "Self::" + m.group(1))
+            return helper_stages(m.group(1), depth + 1)
+        raise TranslateError(f"pipeline: stage expression not understood: {e[:100]!r}")
+
+    def helper_stages(name, depth):
+        body, base = fn_body_at(text, name)
+        sig = re.search(r"fn\s+" + name + r"\s*<[^>]*>\s*\(\s*(\w+)\s*:", text)
+        if not sig: raise TranslateError(f"fn {name}: first parameter not found")
+        var = sig.group(1)
+        sts = statements(body, base)
+        out = []
+        for st, off in sts[:-1]:
+            lm = re.match(r"let\s+(\w+)\s*=\s*", st)
+            if not lm: raise TranslateError(f"fn {name}: statement not understood: {st[:80]!r}")
+            out += expr_stages(st[lm.end():], off + lm.end(), var, depth); var = lm.group(1)
+        st, off = sts[-1]
+        return out + expr_stages(st, off, var, depth)
+
+    body, base = fn_body_at(text, "format_impl")
+    sts = statements(body, base)
+    pipeline = []
+    var = "input"
+    for k, (st, off) in enumerate(sts):
+        last = k == len(sts) - 1
+        if last:
+            e, eoff = st, off
+        else:
+            lm = re.match(r"let\s+tokens\s*", st)
+            if not lm: raise TranslateError(f"format_impl: statement not understood: {st[:80]!r}")
+            # skip an optional type annotation: the `=` outside angle brackets
+            i, depth = lm.end(), 0
+            while i < len(st) and not (st[i] == "=" and depth == 0):
+                if st[i] == "<": depth += 1
+                elif st[i] == ">": depth -= 1
+                i += 1
+            if i >= len(st): raise TranslateError(f"format_impl: statement not understood: {st[:80]!r}")
+            e, eoff = st[i + 1:], off + i + 1
+        im = re.match(r"if\s+self\.(\w+)\s*\{", e.strip())
+        if im:
+            es = e.strip(); eoff += len(e) - len(e.lstrip())
+            j = match_brace(es, im.end() - 1)
+            em = re.match(r"\s*else\s*\{", es[j + 1:])
+            if not em: raise TranslateError("format_impl: `if` without `else` in the pipeline")
+            k2 = match_brace(es, j + 1 + em.end() - 1)
+            if es[k2 + 1:].strip(): raise TranslateError("format_impl: trailing text after if/else")
+            if im.group(1) not in opts: raise TranslateError(f"format_impl: unknown option self.{im.group(1)}")
+            a = expr_stages(es[im.end():j], eoff + im.end(), var)
+            b = expr_stages(es[j + 1 + em.end():k2], eoff + j + 1 + em.end(), var)
+            if "if " in es[im.end():j] or "if " in es[j + 1 + em.end():k2]:
+                raise TranslateError("format_impl: nested conditionals in the pipeline")
+            pipeline.append(f"PIf {opts.index(im.group(1))}%N [{'; '.join(a)}] [{'; '.join(b)}]  (* self.{im.group(1)} *)")
+        else:
+            for b in expr_stages(e, eoff, var):
+                pipeline.append(f"PBase ({b})")
+        var = "tokens"
+    used = set(re.findall(r"BProc (\d+)", " ".join(pipeline)))
+    if used != set(str(i) for i in range(len(proc_offsets))):
+        raise TranslateError(f"pipeline: Processor stages not reached from format_impl: {sorted(set(map(str, range(len(proc_offsets)))) - used)}")
+    usedb = set(re.findall(r"BBubble (\d+)", " ".join(pipeline)))
+    if usedb != set(str(i) for i in range(len(bubble_offsets))):
+        raise TranslateError("pipeline: Bubble stages not reached from format_impl")
+    return pipeline, opts
+
+
+def modified_flag_shape(lib_src):
+    """how Formatter::format computes the flag it returns."""
+    text = strip_comments(lib_src)
+    m = re.search(r"pub\s+fn\s+format\s*<", text)
+    if not m: raise TranslateError("Formatter::format not found")
+    body = re.sub(r"\s+", " ", fn_body(text, "format", "Formatter::format", m.start()))
+    need = [r"input\.read_to_end\(&mut in_buf\)", r"\.write_to\(&mut out_buf\)",
+            r"let modified = in_buf\.ne\(out_buf\.get_ref\(\)\);",
+            r"output\.write_all\(out_buf\.get_ref\(\)\)", r"Ok\(modified\) *$"]
+    pos = -1
+    for pat in need:
+        mm = re.search(pat, body)
+        if not mm or mm.start() < pos:
+            raise TranslateError(f"Formatter::format: the computation of `modified` no longer has the modelled shape (`{pat}`)")
+        pos = mm.start()
+    if len(re.findall(r"\bmodified\b", body)) != 2:
+        raise TranslateError("Formatter::format: `modified` is used in a way that is not understood")
+    return "true"
 
 
 def main():
@@ -444,7 +594,7 @@ def main():
     interner = Interner()
     cx = Ctx(resolved, consts, interner)
     actions = parse_action_fns(proc_src, cx)
-    stages, bubbles = parse_lib(lib_src, actions, cx, default_pt)
+    stages, bubbles, pipeline, opts = parse_lib(lib_src, actions, cx, default_pt)
 
     # ---------------- FmtCats.v
     order = sorted(resolved, key=lambda n: (bin(resolved[n][1]).count("1") > 1, resolved[n][1]))
@@ -461,6 +611,11 @@ def main():
     for c in COQ_CTORS:
         lines.append(f"  | K{c} => C_{cat_tab[c]}")
     lines += ["  end.", ""]
+    lines += ["(* grammar rule kinds the hand-written stages look at (parser/src/cst/syntax_kind.rs) *)"]
+    for k in ("HEX_PATTERN",):
+        if k not in knames: raise TranslateError(f"SyntaxKind::{k} not found in the parser")
+        lines.append(f"Definition K_{k} : N := {knames.index(k)}.")
+    lines.append("")
     text = "\n".join(lines)
     write_if_changed("FmtCats.v", text)
 
@@ -469,7 +624,7 @@ def main():
     out = ["(* GENERATED by translate/gen_fmtrules.py from fmt/src/lib.rs and",
            "   fmt/src/processor/mod.rs -- do not edit; regenerated on every check. *)",
            "From Coq Require Import List NArith ZArith.",
-           "From YV Require Import Fmt.Tokens Gen.FmtCats Fmt.Processor Fmt.Bubble.",
+           "From YV Require Import Fmt.Tokens Gen.FmtCats Fmt.Processor Fmt.Bubble Fmt.Pipeline.",
            "Import ListNotations.", "Local Open Scope N_scope.", ""]
     for k in used_kinds:
         if k not in knames: raise TranslateError(f"SyntaxKind::{k} not found in the parser")
@@ -495,6 +650,24 @@ def main():
     out.append("Definition bubbles : list (tclass * tclass) := [")
     out.append(";\n".join(f"  ({a}, {w})  (* in fn {fn} *)" for a, w, fn in bubbles))
     out.append("].")
+    out.append("")
+    out.append("(* format_impl: the stages in the order they are chained; BProc n / BBubble n index")
+    out.append("   [stages] / [bubbles] from 0.  Options: " + ", ".join(f"{i} = {o}" for i, o in enumerate(opts)) + " *)")
+    out.append("Definition pipeline : list pstage := [")
+    lines_p = []
+    for i, p_ in enumerate(pipeline):
+        sep = ";" if i < len(pipeline) - 1 else ""
+        if "(*" in p_:
+            code, com = p_.split("  (*", 1)
+            lines_p.append(f"  {code}{sep}  (*{com}")
+        else:
+            lines_p.append(f"  {p_}{sep}")
+    out += lines_p
+    out.append("]%nat.")
+    out.append(f"Definition num_options : nat := {len(opts)}.")
+    out.append("")
+    out.append("(* Formatter::format: `let modified = in_buf.ne(out_buf.get_ref());` ... `output.write_all(out_buf.get_ref())` ... `Ok(modified)` *)")
+    out.append(f"Definition modified_is_byte_inequality : bool := {modified_flag_shape(lib_src)}.")
     out.append("")
     write_if_changed("FmtRules.v", "\n".join(out))
 
